@@ -845,8 +845,19 @@ func (g *Gen) genLInt(sc *Scope, d int) *Expr {
 		return g.scall(sc, "numbers", Int(g.n(6, "numbers")))
 	case c < 82:
 		return MCall(g.Expr(TLInt, sc, d-1, false), "combine", g.lam2(sc, d-1, TInt, TInt, TInt))
-	case c < 87:
+	case c < 85:
 		return MCall(g.Expr(TLInt, sc, d-1, false), "number", g.lam2(sc, d-1, TInt, TInt, TInt))
+	case c < 87:
+		// compact with an equivalence relation (equal, or equal modulo 2)
+		p := g.freshNames(sc, 2)
+		if p[0] == p[1] {
+			p[1] = p[1] + "_"
+		}
+		eq := Bin("=", Var(p[0]), Var(p[1]))
+		if g.chance(30, "compactMod") {
+			eq = Bin("=", Bin("%", Var(p[0]), Int(2)), Bin("%", Var(p[1]), Int(2)))
+		}
+		return MCall(g.Expr(TLInt, sc, d-1, false), "compact", Lam(p, eq))
 	case c < 92:
 		// order with the identity key: a total order on ints, ties are identical items
 		p := g.freshNames(sc, 1)
